@@ -2,6 +2,7 @@
 from __future__ import annotations
 
 import ast
+import functools
 import inspect
 import io
 import json
@@ -40,7 +41,39 @@ class Evaluated:
         return "Evaluated(%r)" % (self.text,)
 
 
+class DefaultStr(str):
+    """A parameter default that is a string (expression-like text): a literal that must never be evaluated."""
+    pname = None
+
+
+LIT_DEFAULTS = {"None": None, "0": 0, "False": False, "()": ()}
+
+
+def make_default(sig, name):
+    spec = (sig.get("defvals") or {}).get(name)
+    if spec is None:
+        return Default(name)
+    if spec[0] == "str":
+        d = DefaultStr(spec[1])
+        d.pname = name
+        return d
+    return LIT_DEFAULTS[spec[1]]
+
+
+def canon_param(sig, name, v):
+    """Canonical form of the value a named parameter received (falsy literal defaults are recognised per parameter:
+    the stub evaluator never produces None / 0 / False / (), and cases run with the real evaluator get no None default)."""
+    spec = (sig.get("defvals") or {}).get(name)
+    if spec is not None and spec[0] == "lit":
+        d = LIT_DEFAULTS[spec[1]]
+        if type(v) is type(d) and v == d:
+            return ["default", name]
+    return canon_val(v)
+
+
 def canon_val(v):
+    if isinstance(v, DefaultStr):
+        return ["default", v.pname]
     if isinstance(v, str):
         return ["raw", v]
     if isinstance(v, Evaluated):
@@ -52,28 +85,8 @@ def canon_val(v):
 
 def build_function(sig):
     """The generated signature as a real Python function (returns its locals)."""
-    D = {}
-    params = []
-    n, nd = len(sig["args"]), sig["ndefaults"]
-    for i, a in enumerate(sig["args"]):
-        if i < n - nd:
-            params.append(a)
-        else:
-            D[a] = Default(a)
-            params.append("%s=_D[%r]" % (a, a))
-    if sig["varargs"]:
-        params.append("*" + sig["varargs"])
-    elif sig["kwonly"]:
-        params.append("*")
-    for a in sig["kwonly"]:
-        if a in sig["kwdefaults"]:
-            D[a] = Default(a)
-            params.append("%s=_D[%r]" % (a, a))
-        else:
-            params.append(a)
-    if sig["varkw"]:
-        params.append("**" + sig["varkw"])
-    src = "def f(%s):\n    return dict(locals())\n" % (", ".join(params),)
+    P, D = _param_list(sig)
+    src = "def f(%s):\n    return dict(locals())\n" % (P,)
     ns = {"_D": D}
     exec(compile(src, "<c15sig>", "exec"), ns)
     return ns["f"], src
@@ -83,12 +96,70 @@ def canon_bound(sig, bound):
     """bound: dict param -> value (from locals() or BoundArguments.arguments) -> canonical JSON."""
     out = {}
     for a in list(sig["args"]) + list(sig["kwonly"]):
-        out[a] = canon_val(bound[a])
+        out[a] = canon_param(sig, a, bound[a])
     if sig["varargs"]:
         out["*"] = [canon_val(v) for v in bound.get(sig["varargs"], ())]
     if sig["varkw"]:
         out["**"] = sorted([k, canon_val(v)] for k, v in bound.get(sig["varkw"], {}).items())
     return out
+
+
+def _param_list(sig):
+    """(parameter list as source text, table of default objects) of a generated signature."""
+    D = {}
+    params = []
+    n, nd = len(sig["args"]), sig["ndefaults"]
+    for i, a in enumerate(sig["args"]):
+        if i < n - nd:
+            params.append(a)
+        else:
+            D[a] = make_default(sig, a)
+            params.append("%s=_D[%r]" % (a, a))
+    if sig["varargs"]:
+        params.append("*" + sig["varargs"])
+    elif sig["kwonly"]:
+        params.append("*")
+    for a in sig["kwonly"]:
+        if a in sig["kwdefaults"]:
+            D[a] = make_default(sig, a)
+            params.append("%s=_D[%r]" % (a, a))
+        else:
+            params.append(a)
+    if sig["varkw"]:
+        params.append("**" + sig["varkw"])
+    return ", ".join(params), D
+
+
+_REC = "_REC.append(dict(locals()))"
+TARGET_TEMPLATES = {
+    "function": "def t({P}):\n    {R}\n",
+    "lambda": "t = lambda {P}: {R}\n",
+    "method": "class K:\n    def m({S}):\n        {R}\nt = K().m\n",
+    "classmethod": "class K:\n    @classmethod\n    def m({C}):\n        {R}\nt = K.m\n",
+    "classmethod_via_instance": "class K:\n    @classmethod\n    def m({C}):\n        {R}\nt = K().m\n",
+    "staticmethod": "class K:\n    @staticmethod\n    def m({P}):\n        {R}\nt = K.m\n",
+    "class_init": "class K:\n    def __init__({S}):\n        {R}\nt = K\n",
+    "class_new": "class K:\n    def __new__({C}):\n        {R}\n        return object.__new__(cls)\nt = K\n",
+    "class_inherit_init": "class B:\n    def __init__({S}):\n        {R}\nclass K(B):\n    pass\nt = K\n",
+    "callable_instance": "class K:\n    def __call__({S}):\n        {R}\nt = K()\n",
+    "partial": "def g({P}):\n    {R}\nt = functools.partial(g)\n",
+    "wrapped": "def g({P}):\n    {R}\n@functools.wraps(g)\ndef t(*c15a, **c15k):\n    return g(*c15a, **c15k)\n",
+    "class_generic_new": "class K:\n    def __new__(cls, *c15a, **c15k):\n        return object.__new__(cls)\n"
+                         "    def __init__({S}):\n        {R}\nt = K\n",
+    "class_exception": "class K(Exception):\n    def __init__({S}):\n        {R}\nt = K\n",
+}
+
+
+def build_target(sig, ckind):
+    """The generated signature as a real callable of the given kind; every call appends its locals to the returned list
+    (the bound first parameter `self` / `cls` is in there too and is ignored by canon_bound)."""
+    P, D = _param_list(sig)
+    rec = []
+    src = TARGET_TEMPLATES[ckind].format(P=P, S="self" + (", " + P if P else ""), C="cls" + (", " + P if P else ""),
+                                         R=_REC)
+    ns = {"_D": D, "_REC": rec, "functools": functools}
+    exec(compile(src, "<c15target>", "exec"), ns)
+    return ns["t"], rec
 
 
 ERR_PREFIXES = [
@@ -115,6 +186,19 @@ def classify_parse_error(msg):
 
 def is_blank(s):
     return not s.strip()
+
+
+_REAL_VALUES = {}
+
+
+def real_value(s):
+    """Canonical form of what plain Python evaluates a string of gen_c15.REAL_EVALUABLE to (no pyflyby involved)."""
+    if s not in _REAL_VALUES:
+        assert s in G.REAL_EVALUABLE
+        with warnings.catch_warnings():
+            warnings.simplefilter("ignore")
+            _REAL_VALUES[s] = canon_val(eval(s, {"os": os, "sys": sys}))
+    return _REAL_VALUES[s]
 
 
 def exprability(s):
@@ -244,6 +328,9 @@ class C15(Prop):
         ("lib/python/pyflyby/_py.py", "_PyMain._parse_global_opts"),
         ("lib/python/pyflyby/_py.py", "auto_apply"),
         ("lib/python/pyflyby/_py.py", "_get_argspec"),
+        ("lib/python/pyflyby/_py.py", "_PyMain.apply"),
+        ("lib/python/pyflyby/_py.py", "_PyMain.heuristic_cmd"),
+        ("lib/python/pyflyby/_py.py", "_Namespace.auto_eval"),
         ("lib/python/pyflyby/_util.py", "prefixes"),
         ("lib/python/pyflyby/_idents.py", "is_identifier"),
         ("lib/python/pyflyby/_parse.py", "PythonBlock._ast_node_or_parse_exception"),
@@ -263,7 +350,14 @@ class C15(Prop):
             "199/250-deep brackets, 5000-9000-fold unary/binary chains on which compile() raises RecursionError / "
             "MemoryError / UnicodeEncodeError — each in every argument position) against "
             "_parse_auto_apply_args with a tagging stub namespace; plus CPython-binder cases (inspect.Signature.bind vs "
-            "pyBind), _parse_global_opts cases, an exhaustive small scope (9 signatures x argv<=3 over 12 tokens) and "
+            "pyBind), _parse_global_opts cases, `apply` cases (the whole delivery in-process: auto_apply directly and "
+            "through _PyMain's --apply / `py f args` heuristic / --map routes with every spelling of the argument-mode "
+            "options, onto 14 kinds of callable — function, lambda, bound method, classmethod, staticmethod, class "
+            "via __init__ / __new__ / inherited __init__, callable instance, functools.partial, functools.wraps "
+            "wrapper, class with generic __new__, Exception subclass — that record what they received; with the "
+            "tagging stub evaluator, or with pyflyby's own _Namespace and an empty import database on strings whose "
+            "value plain Python decides), parameter defaults that are expression-like strings or falsy literals, "
+            "an exhaustive small scope (9 signatures x argv<=3 over 12 tokens) and "
             "real `py` subprocesses (string mode, and automatic mode with raw bytes in argv); non-trivial = non-empty argv / call / option list, distinct by full input")
     trusted_base = ["CPython: inspect.Signature.bind as the definition of 'binds as the equivalent Python call' "
                     "(pyBind is validated against it by the 'bind' cases), str.isidentifier/keyword for non-ASCII names, "
@@ -285,6 +379,14 @@ class C15(Prop):
             return self._gen_bind(rng)
         if r0 < 0.12:
             return self._gen_gopts(rng)
+        if r0 < 0.24:
+            case = G.gen_apply(rng)
+            cands = sorted(set(self._candidate_strings(case)))
+            G.add_defvals(rng, case["sig"], cands, real=case.get("ns") == "real")
+            case["unimportable"] = [s for s in cands if rng.random() < 0.15]
+            case["evalerr"] = [s for s in cands if s not in case["unimportable"] and rng.random() < 0.06]
+            self._real_tables(case)
+            return case
         sig = G.gen_sig(rng)
         mode = rng.choice(G.MODES)
         r = rng.random()
@@ -304,6 +406,7 @@ class C15(Prop):
         else:
             case["argv"] = G.gen_soup(rng, sig)
         cands = sorted(set(self._candidate_strings(case)))
+        G.add_defvals(rng, sig, cands)
         case["unimportable"] = [s for s in cands if rng.random() < 0.15]
         case["evalerr"] = [s for s in cands if s not in case["unimportable"] and rng.random() < 0.06]
         return case
@@ -311,12 +414,27 @@ class C15(Prop):
     def exhaustive_cases(self, tier, rng):
         out = G.small_scope(tier, rng)
         out.extend(G.hostile_scope(tier, rng))
+        for case in G.apply_scope(tier, rng):
+            case.setdefault("unimportable", [])
+            case.setdefault("evalerr", [])
+            self._real_tables(case)
+            out.append(case)
         n_sub = 200 if tier == "thorough" else 6
         for _ in range(n_sub):
             out.append(self._gen_subproc(rng))
         for i in range(120 if tier == "thorough" else 8):
             out.append(self._gen_subproc_auto(rng, i))
         return out
+
+    @classmethod
+    def _real_tables(cls, case):
+        """Cases run with the real evaluator: which strings name something that cannot be imported is a fact about
+        the pool (decided when the pool was written), not a per-case choice."""
+        if case.get("ns") == "real":
+            cands = set(cls._candidate_strings(case))
+            case["unimportable"] = sorted(c for c in cands if c in G.REAL_UNIMPORTABLE)
+            case["evalerr"] = []
+        return case
 
     # strings handed to a real `py` in automatic mode: raw bytes in argv (undecodable bytes included), long / deep
     # text, control characters; a few harmless evaluable ones as neighbours (NUL cannot be in an argv)
@@ -339,7 +457,9 @@ class C15(Prop):
                     continue
                 if is_blank(s2) or compile_raises(s2) or exprability(s2) == "no":
                     pool.append(s2)
-            cls._auto_pool = pool + cls.HARMLESS_EVALUABLE
+            # expressions over names that nothing defines and nothing can import: evaluation is impossible as well
+            cls._auto_pool = pool + cls.HARMLESS_EVALUABLE + [u for u in G.REAL_UNIMPORTABLE if "os." not in u
+                                                              and "sys." not in u]
         return cls._auto_pool
 
     def _gen_subproc_auto(self, rng, i):
@@ -365,6 +485,13 @@ class C15(Prop):
             items.append(["dd", [rng.choice(pool) for _ in range(rng.randint(1, 2))]])
         gopts = rng.choice([[], [], ["-q"], ["--args=auto"], ["--args", "a"]])
         via = rng.choice(["heuristic", "apply", "apply"])
+        argv = G.render(items)
+        if via == "heuristic" and not any(g.startswith("--args") for g in gopts) \
+                and not any(G.looks_like_option_or_blank(a) for a in argv):
+            # `py f ARGS...` without an argument-mode option first tries "f ARGS..." as one piece of Python text
+            # (`py f '[1, 2]'` is the subscript f[1, 2]) unless an argument is blank or looks like an option: that is
+            # the implied --eval feature, not a function call with arguments; name the mode to stay inside the property
+            gopts = gopts + ["--args=auto"]
         sig = dict(args=[], ndefaults=0, varargs="rest", kwonly=[], kwdefaults=[], varkw="kw")
         return dict(kind="subproc_auto", sig=sig, mode="auto", gopts=gopts, via=via, items=items, argv=G.render(items),
                     stdin="")
@@ -407,7 +534,8 @@ class C15(Prop):
             elif r < 0.85:
                 argv.append(rng.choice(["-q", "--quiet", "--verbose", "--print", "--repr", "--silent", "--pprint",
                                         "--output=repr", "-o=silent", "--np", "--no-postmortem", "--postmortem=no",
-                                        "--postmortem", "--add-deprecated-builtins", "--out-mode=Repr_If_Not_None"]))
+                                        "--postmortem", "--add-deprecated-builtins", "--out-mode=Repr_If_Not_None",
+                                        "--postmortem=auto", "--postmortem=If-TTY"]))
             elif r < 0.9:
                 argv.extend([rng.choice(["--output", "-o", "--out"]), rng.choice(["repr", "silent", "pp", "exit"])])
             else:
@@ -500,6 +628,8 @@ class C15(Prop):
             return self._run_gopts(case)
         if kind in ("subproc", "subproc_auto"):
             return self._run_subproc(case)
+        if kind == "apply":
+            return self._run_apply(case)
         raise ValueError("unknown case kind %r" % (kind,))
 
     def _run_bind(self, case):
@@ -593,6 +723,124 @@ class C15(Prop):
                 obs["msg"] = (p.stderr[-300:] + p.stdout[-200:])
         return obs
 
+    def _run_apply(self, case):
+        """The whole delivery in-process: auto_apply directly, or _PyMain (global options, then --apply / the
+        `py f args...` heuristic / --map) onto a real callable of the case's kind, with the tagging stub namespace;
+        the callable records what it received."""
+        from pyflyby import _py
+        from pyflyby._log import logger
+        sig = case["sig"]
+        target, rec = build_target(sig, case["ckind"])
+        unimportable = set(case.get("unimportable", ()))
+        evalerr = set(case.get("evalerr", ()))
+        log = []
+
+        class StubNamespace:
+            def __init__(self):
+                self.globals = {}
+
+            def auto_import(self, arg):
+                return True
+
+            def auto_eval(self, block, mode=None, info=False, auto_import=True, debug=False):
+                s = str(block)
+                if s == G.TARGET_NAME:
+                    return target
+                log.append(s)
+                if s in unimportable:
+                    raise _py.UnimportableNameError("stub: unimportable")
+                if s in evalerr:
+                    raise ValueError("stub: evaluation error")
+                return Evaluated(s)
+
+        real = case.get("ns") == "real"
+        ns = StubNamespace()
+        saved_env = {k: os.environ.get(k) for k in ("PYFLYBY_PATH", "PYFLYBY_KNOWN_IMPORTS_PATH",
+                                                    "PYFLYBY_MANDATORY_IMPORTS_PATH")}
+        if real:
+            # pyflyby's own namespace with an empty import database (what --safe sets up); the function is a global
+            os.environ.update(PYFLYBY_PATH="EMPTY", PYFLYBY_KNOWN_IMPORTS_PATH="", PYFLYBY_MANDATORY_IMPORTS_PATH="")
+            ns = _py._Namespace()
+            ns.globals[G.TARGET_NAME] = target
+        saved_pm = getattr(_py, "_enable_postmortem_debugger", None)
+        saved_std = (sys.stdin, sys.stdout, sys.stderr)
+        saved_argv = sys.argv
+        saved_level = logger.level
+        out, errf = io.StringIO(), io.StringIO()
+        obs = {}
+        try:
+            sys.stdin = io.StringIO(case.get("stdin", ""))
+            sys.stdout, sys.stderr = out, errf
+            logger.set_level("INFO")
+            try:
+                if case["route"] == "direct":
+                    fn = _py.UserExpr(target, ns, "raw_value", G.TARGET_NAME)
+                    _py.auto_apply(fn, list(case["argv"]), ns, case.get("mode_token"))
+                else:
+                    m = _py._PyMain(list(case["gopts"]) + list(case["form"]) + list(case["argv"]))
+                    m.namespace = ns
+                    m.create_ipython_app = lambda: None
+                    m._parse_global_opts()
+                    _py._enable_postmortem_debugger = False      # never a debugger inside the harness
+                    m._run_action()
+            except SystemExit as e:
+                obs["exit"] = e.code if (e.code is None or isinstance(e.code, int)) else repr(e.code)[:80]
+            except Exception as e:
+                obs["err"] = "exc:" + type(e).__name__
+                obs["msg"] = str(e)[:200]
+        finally:
+            sys.stdin, sys.stdout, sys.stderr = saved_std
+            sys.argv = saved_argv
+            for k, v in saved_env.items():
+                if v is None:
+                    os.environ.pop(k, None)
+                else:
+                    os.environ[k] = v
+            _py._enable_postmortem_debugger = saved_pm
+            logger.set_level(saved_level)
+        obs["calls"] = [canon_bound(sig, b) for b in rec]
+        if "exit" in obs and "err" not in obs:
+            code, etext, otext = obs["exit"], errf.getvalue(), out.getvalue()
+            err = None
+            if code in (0, None):
+                err = "wantHelp" if "Command-line signature" in otext else "exc:exit0"   # help and source alike
+            else:
+                for line in etext.splitlines():
+                    if line.startswith("[PYFLYBY] "):
+                        k = classify_parse_error(line[len("[PYFLYBY] "):])
+                        if k != "ParseError:?":
+                            err = k
+                            obs["msg"] = line[:200]
+                            break
+                if err is None:
+                    last = [ln for ln in etext.splitlines() if ln.strip()][-1:]
+                    if code == 1 and last and last[0].startswith("TypeError:") and "Traceback" in etext:
+                        err = "callTypeError"         # the call itself refused the arguments
+                        obs["msg"] = last[0][:200]
+                    else:
+                        err = "exc:exit%s" % (code,)
+                        obs["msg"] = (etext[-300:] + otext[-100:])
+            obs["err"] = err
+        obs["log"] = log
+        if case["mode"] != "string":
+            obs.update(self._parse_tables(case))
+        return obs
+
+    def _parse_tables(self, case):
+        """The per-case tables the model takes as parameters: which candidate strings pyflyby's parser takes as an
+        expression, and on which CPython's compile() gives up."""
+        from pyflyby import _py
+        from pyflyby._parse import PythonBlock
+        par = []
+        cands = sorted(set(self._candidate_strings(case)))
+        for s in cands:
+            try:
+                if PythonBlock(s, flags=_py.FLAGS).parsable_as_expression:
+                    par.append(s)
+            except Exception:
+                pass
+        return dict(parsable=par, compile_raises=[s for s in cands if compile_raises(s)])
+
     def _run_parse(self, case):
         from pyflyby import _py
         sig = case["sig"]
@@ -619,8 +867,10 @@ class C15(Prop):
             try:
                 args, kwargs = _py._parse_auto_apply_args(argspec, list(case["argv"]), StubNamespace(),
                                                           arg_mode=case["mode"])
-                obs["ok"] = dict(args=[canon_val(v) for v in args],
-                                 kwargs=sorted([k, canon_val(v)] for k, v in kwargs.items()))
+                nargs = len(sig["args"])
+                obs["ok"] = dict(args=[canon_param(sig, sig["args"][i], v) if i < nargs else canon_val(v)
+                                       for i, v in enumerate(args)],
+                                 kwargs=sorted([k, canon_param(sig, k, v)] for k, v in kwargs.items()))
                 try:
                     obs["call"] = canon_bound(sig, f(*args, **kwargs))
                 except TypeError as e:
@@ -660,6 +910,134 @@ class C15(Prop):
             return self._oracle_subproc_auto(case, obs)
         if kind == "gopts":
             return self._oracle_gopts(case, obs)
+        if kind == "apply":
+            return self._oracle_apply(case, obs)
+        return []
+
+    @staticmethod
+    def _apply_view(case):
+        """What `py` can know of the callable's parameters: the signature itself, or nothing (then option names are
+        passed on as typed and the call decides)."""
+        return case["sig"] if case["ckind"] in G.CKINDS_TRANSPARENT else G.GENERIC_SIG
+
+    def _oracle_apply(self, case, obs):
+        sig, argv, mode = case["sig"], case["argv"], case["mode"]
+        brief = dict(ckind=case["ckind"], route=case["route"], sig=sig, argv=argv, mode=mode)
+        for k in ("gopts", "form", "mode_token"):
+            if k in case:
+                brief[k] = case[k]
+        err = obs.get("err")
+        if err is not None and (err.startswith("exc:") or err == "ParseError:?"):
+            return [dict(what="unexpected exception while applying the function", err=err, msg=obs.get("msg"), **brief)]
+        calls = obs["calls"]
+        fails = []
+        sources = set(self._candidate_strings(case))
+        real = case.get("ns") == "real"
+        values = [real_value(x) for x in sources if x in G.REAL_EVALUABLE] if real else []
+        for b in calls:
+            vals = []
+            for k, v in b.items():
+                if k == "*":
+                    vals.extend(v)
+                elif k == "**":
+                    vals.extend(x for _, x in v)
+                else:
+                    vals.append(v)
+            for v in vals:
+                if real and v[0] != "default":
+                    if not ((v[0] == "raw" and v[1] in sources) or (mode != "string" and v in values)):
+                        fails.append(dict(what="delivered value is neither an original argument string nor the value "
+                                               "of one", value=v, **brief))
+                elif v[0] == "other":
+                    fails.append(dict(what="delivered value is neither an argument string, an evaluation nor a default",
+                                      value=v, **brief))
+                elif v[0] in ("raw", "eval") and v[1] not in sources:
+                    fails.append(dict(what="delivered string is not an original argument string", value=v, **brief))
+                elif v[0] == "eval" and mode == "string":
+                    fails.append(dict(what="string mode evaluated an argument", value=v, **brief))
+        if mode == "string" and obs["log"]:
+            fails.append(dict(what="string mode called the evaluator", log=obs["log"][:5], **brief))
+        if fails:
+            return fails[:3]
+        view = self._apply_view(case)
+        opaque = case["ckind"] not in G.CKINDS_TRANSPARENT
+        if case["route"] == "map":
+            return self._oracle_apply_map(case, obs, view, brief)
+        if len(calls) > 1:
+            return [dict(what="the function was called more than once", ncalls=len(calls), **brief)]
+        if err is None and not calls:
+            return [dict(what="the function was neither called nor the command line rejected", **brief)]
+        if calls and "--" in argv:
+            rest = [["raw", x] for x in argv[argv.index("--") + 1:]]
+            a = [calls[0][p] for p in sig["args"]] + list(calls[0].get("*", []))
+            if rest and not any(a[i:i + len(rest)] == rest for i in range(len(a) - len(rest) + 1)):
+                return [dict(what="arguments after `--` did not arrive as the exact strings, in order",
+                             got=a, want=rest, **brief)]
+        fails = self._judge_apply(case, obs, view, opaque, brief)
+        if fails and opaque and not self._judge_apply(case, obs, sig, False, brief):
+            # a callable `py` cannot look into: behaving as if it could (names and unique prefixes resolved against
+            # the real parameters, the parser's own rejections) is what the statement says, so that is accepted too
+            return []
+        return fails
+
+    def _judge_apply(self, case, obs, view, opaque, brief):
+        calls, err = obs["calls"], obs.get("err")
+        fails = []
+        exp = self._expected(case, view=view)
+        if exp is None:
+            return []
+        problems, optional, want = exp
+        if opaque and problems and not any(p.startswith("harness:") for p in problems):
+            problems = {"callTypeError"}        # the call itself is the only judge `py` has
+        if problems:
+            if calls:
+                fails.append(dict(what="command line accepted although it must be rejected", reasons=sorted(problems),
+                                  got=calls[0], **brief))
+            elif err not in problems and err not in optional:
+                fails.append(dict(what="rejected for a reason that is not present", reasons=sorted(problems), err=err,
+                                  msg=obs.get("msg"), **brief))
+            return fails
+        if not calls:
+            if err in optional:
+                return []
+            return [dict(what="valid command line rejected", err=err, msg=obs.get("msg"), **brief)]
+        got = calls[0]
+        for k in sorted(set(want) | set(got)):
+            if not self._accept(want.get(k), got.get(k)):
+                fails.append(dict(what="binding differs from the equivalent Python call", param=k,
+                                  got=got.get(k), want=want.get(k), **brief))
+        return fails[:3]
+
+    @staticmethod
+    def _map_pseudo(case, s):
+        items = [["dd", [s]]] if case["map_literal"] else [["pos", s]]
+        return dict(case, items=items, argv=G.render(items))
+
+    def _oracle_apply_map(self, case, obs, view, brief):
+        """`py --map f a b c` is f(a); f(b); f(c), each argument read in the current mode; `--map f -- a b c` the same
+        with the exact strings."""
+        calls, err = obs["calls"], obs.get("err")
+        for i, s in enumerate(case["map_args"]):
+            exp = self._expected(self._map_pseudo(case, s), view=view)
+            if exp is None:
+                return []
+            problems, optional, want = exp
+            if problems:
+                return []       # not generated (the signature takes one positional argument)
+            if i >= len(calls):
+                if err is not None and err in optional:
+                    return []
+                return [dict(what="--map: an argument did not reach the function", index=i, arg=s[:200], err=err,
+                             msg=obs.get("msg"), ncalls=len(calls), **brief)]
+            got = calls[i]
+            for k in sorted(set(want) | set(got)):
+                if not self._accept(want.get(k), got.get(k)):
+                    return [dict(what="binding differs from the equivalent Python call", index=i, param=k,
+                                 got=got.get(k), want=want.get(k), **brief)]
+        if len(calls) > len(case["map_args"]):
+            return [dict(what="--map: more calls than arguments", ncalls=len(calls), **brief)]
+        if err is not None:
+            return [dict(what="valid command line rejected", err=err, msg=obs.get("msg"), **brief)]
         return []
 
     def _oracle_subproc_auto(self, case, obs):
@@ -683,7 +1061,8 @@ class C15(Prop):
         got_kw = dict((k, v) for k, v in obs["call"].get("**", []))
 
         def check(where, s, literal, got):
-            impossible = literal or is_blank(s) or compile_raises(s) or exprability(s) == "no"
+            impossible = (literal or is_blank(s) or compile_raises(s) or exprability(s) == "no"
+                          or s in G.REAL_UNIMPORTABLE)
             if got is None:
                 fails.append(dict(what="argument did not arrive", where=where, want=s[:200], **brief))
             elif impossible and got != ["raw", s]:
@@ -821,13 +1200,16 @@ class C15(Prop):
                     out.append(n)
         return sorted(set(out))
 
-    def _expected(self, case):
+    def _expected(self, case, view=None):
         """(problems, expected bound arguments) of the equivalent Python call, or None when the command line is
-        outside the documented forms (then only the generic clauses are demanded)."""
+        outside the documented forms (then only the generic clauses are demanded).  `view`: the parameters an option
+        name can be resolved against (default: the signature; for callables `py` cannot look into, none — the name
+        is passed on as typed and the call must take it)."""
         items = case.get("items")
         if items is None or G.render(items) != case["argv"]:
             return None
         sig, mode = case["sig"], case["mode"]
+        view = view or sig
         unimportable, evalerr = set(case.get("unimportable", ())), set(case.get("evalerr", ()))
         problems = set()
 
@@ -835,8 +1217,15 @@ class C15(Prop):
             def __init__(self, acc, err=False):
                 self.acc, self.err = acc, err
 
+        real = case.get("ns") == "real"
+
         def expect(s, literal):
             if literal or mode == "string":
+                return Exp([["raw", s]])
+            if real:
+                # the real evaluator (automatic mode): plain Python says what the text is worth
+                if s in G.REAL_EVALUABLE:
+                    return Exp([real_value(s)])
                 return Exp([["raw", s]])
             if mode == "eval":
                 # the statement says nothing about what eval mode does with a string that cannot be evaluated:
@@ -883,14 +1272,14 @@ class C15(Prop):
                     return None
                 if form.endswith(" v") and (value.startswith("--")):
                     return None
-                target = self._resolve(sig, name)
+                target = self._resolve(view, name)
                 if target.startswith("!"):
                     if form.endswith(" v") and name in ("help", "h", "source") and target == "!unknownOption":
                         return None
                     problems.add(target[1:])
                     continue
                 if target == name and name in ("help", "h", "source") and form.endswith(" v") \
-                        and name not in G.sig_names(sig):
+                        and name not in G.sig_names(view):
                     return None     # bare --help/--h/--source not naming a parameter: the help request
                 kw[target] = expect(value, False)
             else:
@@ -908,6 +1297,8 @@ class C15(Prop):
         for a in sig["kwonly"]:
             if a not in kw and a not in sig["kwdefaults"]:
                 problems.add("missingRequiredKw")
+        if not sig["varkw"] and any(k not in G.sig_names(sig) for k in kw):
+            problems.add("unexpectedKw")        # only with a `view` other than the signature
         optional = set()
         for e2 in pos + list(kw.values()):
             if e2.err:
@@ -919,20 +1310,20 @@ class C15(Prop):
         except TypeError as e:
             bind_ok = False
             bind_msg = str(e)
-        structural = problems & {"tooManyPos", "bothPosKw", "missingRequired", "missingRequiredKw"}
+        structural = problems & {"tooManyPos", "bothPosKw", "missingRequired", "missingRequiredKw", "unexpectedKw"}
         if not any(p in ("ambiguous", "unknownOption") for p in problems) and bind_ok != (not structural):
             return {"harness:inspect.bind disagrees with the oracle's problem list"}, optional, None
         if problems:
             return problems, optional, None
         ba.apply_defaults()
 
-        def one(v):
+        def one(v, name=None):
             if isinstance(v, Exp):
                 return ["one", v.acc]
-            return ["one", [canon_val(v)]]
+            return ["one", [canon_param(sig, name, v) if name is not None else canon_val(v)]]
         want = {}
         for a in list(sig["args"]) + list(sig["kwonly"]):
-            want[a] = one(ba.arguments[a])
+            want[a] = one(ba.arguments[a], a)
         if sig["varargs"]:
             want["*"] = [one(v) for v in ba.arguments.get(sig["varargs"], ())]
         if sig["varkw"]:
@@ -964,6 +1355,68 @@ class C15(Prop):
         return dict(args=sig["args"], ndefaults=sig["ndefaults"], varargs=bool(sig["varargs"]), kwonly=sig["kwonly"],
                     kwdefaults=sig["kwdefaults"], varkw=bool(sig["varkw"]))
 
+    @staticmethod
+    def _nonascii_idents(argv):
+        idents = set()
+        for a in argv:
+            if a.startswith("-") and not a.isascii():
+                for body in (a[1:], a[2:]):
+                    n = body.partition("=")[0].replace("-", "_")
+                    if not n.isascii() and py_is_identifier(n):
+                        idents.add(n)
+        return sorted(idents)
+
+    @staticmethod
+    def _call_with_delivery(sig, ok, real=False):
+        """What the real function of this signature receives from the model's delivery (canonical values), or None
+        when the call itself refuses it."""
+        f, _ = build_function(sig)
+        if real:
+            def tr(v):
+                return real_value(v[1]) if v[0] == "eval" and v[1] in G.REAL_EVALUABLE else v
+            ok = dict(args=[tr(v) for v in ok["args"]], kwargs=[[k, tr(v)] for k, v in ok["kwargs"]])
+        try:
+            b = f(*ok["args"], **{k: v for k, v in ok["kwargs"]})
+        except TypeError:
+            return None
+
+        def cv(v, name=None):
+            if isinstance(v, list):
+                return v
+            return canon_param(sig, name, v) if name is not None else canon_val(v)
+        out = {}
+        for a in list(sig["args"]) + list(sig["kwonly"]):
+            out[a] = cv(b[a], a)
+        if sig["varargs"]:
+            out["*"] = [cv(v) for v in b.get(sig["varargs"], ())]
+        if sig["varkw"]:
+            out["**"] = sorted([k, cv(v)] for k, v in b.get(sig["varkw"], {}).items())
+        return out
+
+    def _compare_apply(self, case, obs, resps):
+        sig = case["sig"]
+        calls, oerr = obs["calls"], obs.get("err")
+        for i, r0 in enumerate(resps):
+            r = _map_obj(r0, _dec_str)
+            if "ok" in r:
+                b = self._call_with_delivery(sig, r["ok"], real=case.get("ns") == "real")
+                merr = None if b is not None else "callTypeError"
+            else:
+                b, merr = None, ("wantHelp" if r.get("err") == "wantSource" else r.get("err"))
+            if merr is not None:
+                if len(calls) != i or oerr != merr:
+                    return "step %d: model %s, impl calls=%d err=%s (%s)" % (i, merr, len(calls), oerr, obs.get("msg"))
+                return None
+            if i >= len(calls):
+                return "step %d: model delivers %s, impl calls=%d err=%s (%s)" % (
+                    i, json.dumps(b)[:300], len(calls), oerr, obs.get("msg"))
+            if calls[i] != b:
+                return "step %d: impl=%s model=%s" % (i, json.dumps(calls[i])[:300], json.dumps(b)[:300])
+        if len(calls) != len(resps) or oerr is not None:
+            return "model: %d calls and no error, impl calls=%d err=%s (%s)" % (len(resps), len(calls), oerr,
+                                                                               obs.get("msg"))
+        return None
+
     def model_requests(self, case, obs):
         kind = case.get("kind", "parse")
         if kind in ("parse", "subproc"):
@@ -979,6 +1432,19 @@ class C15(Prop):
                                   parsable=obs.get("parsable", []), compileRaises=obs.get("compile_raises", []),
                                   unimportable=case.get("unimportable", []), evalerr=case.get("evalerr", []),
                                   exactFirst=self.d16_fixed()), _enc_str)]
+        if kind == "apply":
+            # auto_apply on a callable = _parse_auto_apply_args on what `py` can see of its parameters (the signature
+            # without the bound first parameter, or (*args, **kwargs) for a callable it cannot look into), then the
+            # call; the harness states that view itself (it does not ask _get_argspec)
+            view = self._apply_view(case)
+            argvs = [case["argv"]]
+            if case["route"] == "map":
+                argvs = [self._map_pseudo(case, s)["argv"] for s in case["map_args"]]
+            return [_map_obj(dict(op="parse", spec=self._spec_json(view), argv=av, stdin=case.get("stdin", ""),
+                                  mode=case["mode"], idents=self._nonascii_idents(av),
+                                  parsable=obs.get("parsable", []), compileRaises=obs.get("compile_raises", []),
+                                  unimportable=case.get("unimportable", []), evalerr=case.get("evalerr", []),
+                                  exactFirst=self.d16_fixed()), _enc_str) for av in argvs]
         if kind == "bind":
             return [dict(op="bind", spec=self._spec_json(case["sig"]), pos=["p%d" % i for i in range(case["npos"])],
                          kw=case["kw"])]
@@ -988,6 +1454,8 @@ class C15(Prop):
 
     def compare(self, case, obs, resps):
         kind = case.get("kind", "parse")
+        if kind == "apply":
+            return self._compare_apply(case, obs, resps)
         r = _map_obj(resps[0], _dec_str)
         if kind in ("parse", "subproc"):
             if "err" in obs:
@@ -1030,6 +1498,9 @@ class C15(Prop):
         kind = case.get("kind", "parse")
         if kind in ("parse", "subproc", "subproc_auto") and len(case["argv"]) >= 1:
             return json.dumps([kind, case["sig"], case["argv"], case["mode"]], sort_keys=True)
+        if kind == "apply" and len(case["argv"]) >= 1:
+            return json.dumps([kind, case["ckind"], case["route"], case["sig"], case["argv"], case["mode"],
+                               case.get("ns")], sort_keys=True)
         if kind == "bind" and (case["npos"] or case["kw"]):
             return json.dumps([kind, case["sig"], case["npos"], case["kw"]], sort_keys=True)
         if kind == "gopts" and case["argv"]:
@@ -1038,13 +1509,20 @@ class C15(Prop):
 
     def sample_repr(self, case, obs):
         return dict(sig=case.get("sig"), argv=case.get("argv"), mode=case.get("mode"),
-                    result=obs.get("ok") or obs.get("err"))
+                    result=obs.get("ok") or obs.get("err") or obs.get("calls"))
 
     def stats(self, case, obs, acc):
         def inc(k):
             acc[k] = acc.get(k, 0) + 1
         inc("cases_from_" + case.get("_src", "?"))
         inc("kind_" + case.get("kind", "parse"))
+        if case.get("kind") == "apply":
+            inc("apply_ns_" + case.get("ns", "stub"))
+            inc("apply_kind_" + case["ckind"])
+            inc("apply_route_" + case["route"])
+            inc("apply_mode_" + case["mode"])
+            inc("apply_result_" + (obs.get("err") or "called"))
+            return
         if case.get("kind", "parse") not in ("parse", "subproc", "subproc_auto"):
             inc(case["kind"] + "_" + ("ok" if "ok" in obs else "err"))
             return
